@@ -123,9 +123,11 @@ impl BlockRule for HtmlBlockScanner {
         // Let's roll down till block end.
         if !sequence.close.is_match(line_text) {
             while next_line < state.line_max {
-                if state.line_indent(next_line) < 0 { break; }
-
                 let line_text = state.get_line(next_line);
+
+                // non-empty line with negative indent should stop the block
+                // (an empty line inside a list item has no indent at all)
+                if !line_text.is_empty() && state.line_indent(next_line) < 0 { break; }
 
                 if sequence.close.is_match(line_text) {
                     if !line_text.is_empty() { next_line += 1; }
